@@ -422,6 +422,20 @@ decls! {
     };
     corpus = vec![s("abc-1"), s("  ABC-1 "), s(""), s("a_b"), s("abcdefghijkl"), s("abcdefghijklm"), s("K"), s("İ")];
 
+    // a regex given BY PATH next to other validators (validators are matched by kind in several
+    // places of the macro; the path form is the rarely used one)
+    #[nutype(sanitize(trim), validate(len_char_max = 9, regex = CODE_RE, not_empty), derive(Debug, Clone, Serialize, Deserialize))]
+    struct CodeMulti(String);
+    family = "string"; validated = true; core = false;
+    gen = |r| {
+        if r.chance(1, 2) {
+            format!("{}{}-{}", (b'A' + r.below(26) as u8) as char, *r.pick(&['B', 'b', 'Z', '1']), r.below(20000))
+        } else {
+            gen_string(r, 7)
+        }
+    };
+    corpus = vec![s("AB-12"), s(" AB-1 "), s("ab-12"), s("no spaces"), s(""), s("AB-12345"), s("abcdefghij")];
+
     #[nutype(validate(regex = CODE_RE), derive(Debug, Clone, Serialize, Deserialize))]
     struct Code(String);
     family = "string"; validated = true; core = false;
